@@ -7,6 +7,7 @@ import (
 	"sync"
 
 	"github.com/deepteams/webp/internal/bitio"
+	"github.com/deepteams/webp/internal/verifhook"
 )
 
 // losslessEncoderPool reuses Encoder structs across successive lossless
@@ -20,6 +21,7 @@ var losslessEncoderPool = sync.Pool{
 // acquireEncoder returns an Encoder from the pool, resetting it for a new encode.
 func acquireEncoder(width, height int, config *EncoderConfig) *Encoder {
 	enc := losslessEncoderPool.Get().(*Encoder)
+	verifhook.Pool("lossless.encoderPool", enc.width > 0)
 	enc.config = config
 	enc.width = width
 	enc.height = height
